@@ -16,7 +16,8 @@
 //! Outcomes: the `c_path::canon` type string for `FileValid`, `NotSupported`, `NotSupported:<msg>`,
 //! `Err`, `NotAFile`, `NotExist`, `NoPermissions`, `Empty`, `TooSmall`, `Library`.
 //! Files whose name classifies as a tar archive hold non-tar bytes, so `process_path_tar`
-//! answers with a single `FileErr` (`Err`); tar member enumeration is not part of this component.
+//! answers with a single `FileErr` (`Err`); tar member enumeration is component `walktar`
+//! (c_walktar.rs, requests `walk tar ..`, which `replay_line` here forwards).
 use crate::c_path::canon;
 use crate::util::*;
 use s4lib::readers::filepreprocessor::{process_path, PathToFiletypeResult, ProcessPathResult};
@@ -143,7 +144,7 @@ impl Builder {
     }
 }
 
-fn outcome(r: &ProcessPathResult) -> (String, String) {
+pub fn outcome(r: &ProcessPathResult) -> (String, String) {
     match r {
         ProcessPathResult::FileValid(p, ft) => (p.clone(), canon(PathToFiletypeResult::Filetype(*ft))),
         ProcessPathResult::FileErrEmpty(p, _) => (p.clone(), "Empty".to_string()),
@@ -338,6 +339,7 @@ pub fn run(o: &Opts, out: &mut dyn Write) {
 pub fn replay_line(req: &str) -> String {
     let w: Vec<&str> = req.split_whitespace().collect();
     match w.as_slice() {
+        ["walk", "tar", ..] => crate::c_walktar::replay_line(req),
         ["walk", "tree", spec] => match decode(spec) {
             Some(t) => walk_impl(&t),
             None => "bad-op".to_string(),
